@@ -102,6 +102,23 @@ def cmdnorm(t):
     return tuple(cmdnorm(x) if isinstance(x, tuple) else x for x in t)
 
 
+def arm_variant(pat):
+    """the subcommand an arm pattern selects: the variant in ARGS_OF named anywhere in the (possibly nested) pattern"""
+    stack = [pat]
+    top = norm_path(pat.get("path", "")).split("::")[-1]
+    while stack:
+        p = stack.pop()
+        if not isinstance(p, dict):
+            continue
+        v = norm_path(p.get("path", "")).split("::")[-1]
+        if v in ARGS_OF:
+            return v
+        stack.extend(p.get("ps", []) or [])
+        stack.extend(f.get("pat") for f in (p.get("fields", []) or []))
+        stack.extend(x for x in (p.get("pat"), p.get("sub")) if x)
+    return top
+
+
 def arm_of(t):
     for s in subterms(t):
         if s[0] == "variant" and s[2] == 0 and s[1] in ARGS_OF:
@@ -294,6 +311,34 @@ def preset_rule(ctx, fv):
                 extra = set(got) - set(PRESETS)
                 if extra:
                     ctx.fail("C15.P", "%s:preset_extra" % arm, "unexpected preset arms %s" % sorted(extra), line_of(c))
+    # ... or from a match that is itself the argument (`set_delim(match preset { Csv => ",", .. })`, e.g. an expanded helper)
+    for c in fv.nodes:
+        if c.get("k") == "mcall" and cname(c).endswith("set_delim") and c.get("args"):
+            a = c["args"][0]
+            while a.get("k") in ("block", "addr") and not a.get("stmts"):
+                a = a.get("expr") if a.get("k") == "block" else a.get("e")
+                if a is None:
+                    break
+            if a is None or a.get("k") != "match":
+                continue
+            st = fv.term(a["e"])
+            if not (st[0] == "field" and st[2] == "preset"):
+                continue
+            arm = arm_of(st)
+            got = {}
+            for ar in a["arms"]:
+                variant = norm_path(ar["pat"].get("path", "")).split("::")[-1]
+                t = fv.term(ar["body"])
+                while t[0] == "call" and len(t) == 3:
+                    t = t[2]
+                got[variant] = t[1] if t[0] == "lit" else show(t)
+            n_tables += 1
+            for v, exp in PRESETS.items():
+                ctx.check("C15.P", "%s:preset_%s" % (arm, v), got.get(v) == exp, "%s -> %r" % (v, exp),
+                          "preset %s of the `%s` subcommand selects %r, expected %r" % (v, arm, got.get(v), exp), line_of(c))
+            extra = set(got) - set(PRESETS)
+            if extra:
+                ctx.fail("C15.P", "%s:preset_extra" % arm, "unexpected preset arms %s" % sorted(extra), line_of(c))
     if n_tables < 3:
         ctx.fail("C15.P", "presets:floor", "expected 3 preset dispatch tables (oligo, cov, min), found %d" % n_tables, fv.fn["sp"])
 
@@ -416,7 +461,7 @@ def flow_rule(ctx, fv, arms=None):
                 if a.get("k") == "match":
                     for ar in a["arms"]:
                         if any(x is n for x in walk(ar["body"])):
-                            v = norm_path(ar["pat"].get("path", "")).split("::")[-1]
+                            v = arm_variant(ar["pat"])
                             if v in ARGS_OF:
                                 arm = v
                     if arm:
@@ -529,7 +574,7 @@ def output_creators(ctx):
 
 def refusal_rule(ctx, fv):
     creators = output_creators(ctx)
-    rets = [n for n in fv.nodes if n.get("k") == "ret"]
+    rets = [n for n in fv.nodes if n.get("k") == "ret" or n.get("was_ret")]   # was_ret: early exit of an expanded helper
     want = {
         "Min:window_not_longer_than_m": lambda t: t == "((0 < cmd.w_size) && (cmd.w_size <= cmd.m_size))",
         "Min:m_too_long": lambda t: t == "(31 <= cmd.m_size)",
@@ -579,7 +624,7 @@ def refusal_rule(ctx, fv):
                 for a in fv.ancestors(n):
                     if a.get("k") == "match":
                         for ar in a["arms"]:
-                            if norm_path(ar["pat"].get("path", "")).split("::")[-1] == arm_name and any(x is n for x in walk(ar["body"])):
+                            if arm_variant(ar["pat"]) == arm_name and any(x is n for x in walk(ar["body"])):
                                 in_same_arm = True
                 if in_same_arm and order[id(n)] < order[id(r)]:
                     # allowed if it is in the other branch of a conditional that excludes the refusal
